@@ -12,7 +12,8 @@ Model of the zone-file parser `hickory_proto::serialize::txt::zone::Parser::pars
 * `DNSClass::from_str`, `RecordType::from_str`;
 * `RData::from_tokens` for A, AAAA, NS, CNAME, PTR, ANAME, MX, SOA, SRV, TXT, HINFO, CAA (incl. the std
   `Ipv4Addr`/`Ipv6Addr`/`u16` `FromStr` parsers); the types `from_tokens` refuses are modelled as
-  the error they are; HINFO and CAA are modelled too; CERT, CSYNC, DS, HTTPS, NAPTR, OPENPGPKEY, SMIMEA, SSHFP, SVCB,
+  the error they are; HINFO, CAA, TLSA, SMIMEA, DS and SSHFP are modelled too (hex data = all remaining tokens
+  joined, `joinToks`); CERT, CSYNC, HTTPS, NAPTR, OPENPGPKEY, SMIMEA, SSHFP, SVCB,
   TLSA are `unmodelled`;
 * `Context::insert`, `Ttl::take`, `RecordSet::from` / `RecordSet::insert` (rr/rr_set.rs).
 
@@ -305,7 +306,7 @@ def classOfStr (s : Str) : Option Nat :=
   else none
 
 inductive RType where
-  | a | aaaa | aname | cname | mx | ns | ptr | soa | srv | txt | hinfo | caa
+  | a | aaaa | aname | cname | mx | ns | ptr | soa | srv | txt | hinfo | caa | tlsa | smimea | ds | sshfp
   /-- known mnemonic whose `from_tokens` is an unconditional error -/
   | refused
   /-- known, parseable, not modelled -/
@@ -314,7 +315,8 @@ inductive RType where
 
 def RType.code : RType → Nat
   | .a => 1 | .ns => 2 | .cname => 5 | .soa => 6 | .ptr => 12 | .mx => 15 | .txt => 16
-  | .aaaa => 28 | .srv => 33 | .aname => 65305 | .hinfo => 13 | .caa => 257 | .refused => 0 | .other => 0
+  | .aaaa => 28 | .srv => 33 | .aname => 65305 | .hinfo => 13 | .caa => 257
+  | .tlsa => 52 | .smimea => 53 | .ds => 43 | .sshfp => 44 | .refused => 0 | .other => 0
 
 /-- mnemonics `RecordType::from_str` knows and `RData::from_tokens` refuses unconditionally -/
 def refusedNames : List Str :=
@@ -336,18 +338,13 @@ def refusedNames : List Str :=
 
 /-- mnemonics that are parseable by hickory and not modelled here -/
 def otherNames : List Str :=
-  [[67, 65, 65],  -- CAA
-   [67, 69, 82, 84],  -- CERT
-   [67, 83, 89, 78, 67],  -- CSYNC
-   [68, 83],  -- DS
-   [72, 84, 84, 80, 83],  -- HTTPS
-   [78, 65, 80, 84, 82],  -- NAPTR
-   [79, 80, 69, 78, 80, 71, 80, 75, 69, 89],  -- OPENPGPKEY
-   [83, 77, 73, 77, 69, 65],  -- SMIMEA
-   [83, 83, 72, 70, 80],  -- SSHFP
-   [83, 86, 67, 66],  -- SVCB
-   [84, 76, 83, 65]  -- TLSA
-  ]
+  [[67, 69, 82, 84],
+   [67, 83, 89, 78, 67],
+   [72, 84, 84, 80, 83],
+   [78, 65, 80, 84, 82],
+   [79, 80, 69, 78, 80, 71, 80, 75, 69, 89],
+   [83, 86, 67, 66]]
+  -- CERT, CSYNC, HTTPS, NAPTR, OPENPGPKEY, SVCB
 
 /-- `RecordType::from_str` (on the upper-cased token) -/
 def typeOfStr (s : Str) : Option RType :=
@@ -363,6 +360,10 @@ def typeOfStr (s : Str) : Option RType :=
   else if s = [84, 88, 84] then some .txt
   else if s = [72, 73, 78, 70, 79] then some .hinfo
   else if s = [67, 65, 65] then some .caa
+  else if s = [84, 76, 83, 65] then some .tlsa
+  else if s = [83, 77, 73, 77, 69, 65] then some .smimea
+  else if s = [68, 83] then some .ds
+  else if s = [83, 83, 72, 70, 80] then some .sshfp
   else if refusedNames.contains s then some .refused
   else if otherNames.contains s then some .other
   else none
@@ -377,6 +378,9 @@ inductive RData where
   | txt (strs : List Bytes)
   | hinfo (cpu os : Bytes)
   | caa (critical : Bool) (reserved : Nat) (tag value : Bytes)
+  | tlsa (smimea : Bool) (usage selector matching : Nat) (data : Bytes)
+  | ds (tag alg dtype : Nat) (digest : Bytes)
+  | sshfp (alg fptype : Nat) (fp : Bytes)
   deriving DecidableEq, Repr, Inhabited
 
 /-- derived `PartialEq` of `RData`: embedded names compare with `Name::eq` (case-insensitive) -/
@@ -391,6 +395,9 @@ def RData.eqv : RData → RData → Bool
   | .txt x, .txt y => x == y
   | .hinfo c o, .hinfo c' o' => c == c' && o == o'
   | .caa c r t v, .caa c' r' t' v' => c == c' && r == r' && t == t' && v == v'
+  | .tlsa s u l m d, .tlsa s' u' l' m' d' => s == s' && u == u' && l == l' && m == m' && d == d'
+  | .ds t g y d, .ds t' g' y' d' => t == t' && g == g' && y == y' && d == d'
+  | .sshfp g y f, .sshfp g' y' f' => g == g' && y == y' && f == f'
   | _, _ => false
 
 /-- UTF-8 encoding of one scalar value -/
@@ -401,6 +408,49 @@ def utf8Char (c : Nat) : Bytes :=
   else [0xF0 + c / 262144, 0x80 + c / 4096 % 64, 0x80 + c / 64 % 64, 0x80 + c % 64]
 
 def utf8 (s : Str) : Bytes := (s.map utf8Char).flatten
+
+/-! ### hexadecimal data: "all remaining tokens, concatenated" -/
+
+/-- the RDATA items that make up one piece of data: `iter.fold(String::new(), push_str)` /
+`tokens.collect::<String>()` -/
+def joinToks (ts : List Str) : Str := ts.flatten
+
+/-- pairs of hex digit values → bytes -/
+def hexPairs : List Nat → Bytes
+  | a :: b :: rest => (a * 16 + b) :: hexPairs rest
+  | _ => []
+
+/-- `sshfp::HEX.decode` (data-encoding: symbols 0-9a-f, A-F translated, blank/TAB/CR/LF ignored,
+an odd number of digits is an error) -/
+def hexDecodeLoose (s : Str) : Option Bytes :=
+  let digits := s.filter fun c => !(c = 32 || c = 9 || c = 13 || c = 10)
+  match digits.mapM hexVal with
+  | some vs => if vs.length % 2 = 0 then some (hexPairs vs) else none
+  | none => none
+
+/-- `u8::from_str_radix(two chars, 16)` : two hex digits, or `+` and one hex digit -/
+def hexByte2 (a b : Nat) : Option Nat :=
+  if a = 43 then hexVal b else
+  match hexVal a, hexVal b with
+  | some x, some y => some (x * 16 + y)
+  | _, _ => none
+
+/-- the `while s.len() >= 2` loop of `DS::from_tokens` (a trailing odd digit is dropped) -/
+def dsDigest : Str → Option Bytes
+  | a :: b :: rest => (hexByte2 a b).bind fun v => (dsDigest rest).map (v :: ·)
+  | _ => some []
+
+/-- DNSSEC algorithm mnemonics of RFC 4034 appendix A.1 accepted by `DS::from_tokens` -/
+def dsAlgorithm (s : Str) : Option Nat :=
+  if s = [82, 83, 65, 77, 68, 53] then some 1
+  else if s = [68, 72] then some 2
+  else if s = [68, 83, 65] then some 3
+  else if s = [69, 67, 67] then some 4
+  else if s = [82, 83, 65, 83, 72, 65, 49] then some 5
+  else if s = [73, 78, 68, 73, 82, 69, 67, 84] then some 252
+  else if s = [80, 82, 73, 86, 65, 84, 69, 68, 78, 83] then some 253
+  else if s = [80, 82, 73, 86, 65, 84, 69, 79, 73, 68] then some 254
+  else parseU8 s
 
 def nextTok (what : List Str) : ZR (Str × List Str) :=
   match what with
@@ -443,6 +493,27 @@ def rdataFromTokens (t : RType) (toks : List Str) (origin : Option Name) : ZR RD
     (nextTok toks).bind fun (fl, r) => (nextTok r).bind fun (tag, r) => (nextTok r).bind fun (value, _) =>
     (ZR.ofOption (parseU8 fl)).bind fun flags =>
       .ok (.caa (decide (flags ≥ 128)) (flags % 128) (utf8 tag) (utf8 value))
+  | .tlsa | .smimea =>
+    (nextTok toks).bind fun (u, r) => (ZR.ofOption (parseU8 u)).bind fun usage =>
+    (nextTok r).bind fun (x, r) => (ZR.ofOption (parseU8 x)).bind fun selector =>
+    (nextTok r).bind fun (x, r) => (ZR.ofOption (parseU8 x)).bind fun matching =>
+    (ZR.ofOption (hexDecodeLoose (joinToks r))).bind fun data =>
+      if data.isEmpty then .err else .ok (.tlsa (t = .smimea) usage selector matching data)
+  | .ds =>
+    (nextTok toks).bind fun (tg, r) => (nextTok r).bind fun (al, r) => (nextTok r).bind fun (dt, r) =>
+    (ZR.ofOption (parseU16 tg)).bind fun tag => (ZR.ofOption (dsAlgorithm al)).bind fun alg =>
+    (ZR.ofOption (parseU8 dt)).bind fun dtype =>
+      let s := joinToks r
+      if s.isEmpty then .err
+      else if s.any (· ≥ 128) then .err        -- not a char boundary / not a hex digit
+      else (ZR.ofOption (dsDigest s)).bind fun d => .ok (.ds tag alg dtype d)
+  | .sshfp =>
+    (nextTok toks).bind fun (x, r) => (ZR.ofOption (parseU8 x)).bind fun alg =>
+    (nextTok r).bind fun (x, r) => (ZR.ofOption (parseU8 x)).bind fun fpt =>
+    (nextTok r).bind fun (fp, r) =>
+      if fp.isEmpty then .err else
+      (ZR.ofOption (hexDecodeLoose fp)).bind fun d =>
+        if !r.isEmpty then .err else .ok (.sshfp alg fpt d)     -- "too many fields for SSHFP"
   | .refused => .err
   | .other => .unmodelled
 
